@@ -300,7 +300,7 @@ def check_stats(case, ctx):
                             need("dm", _angle_close(lv, dmu, R.R2D * 8 * rt * condu + 1e-9), ("unweighted", dmu))
                     elif condw < 1e6 and condu < 1e6:
                         need("dm", _angle_close(lv, dmw, R.R2D * 8 * rt * max(condw, condu) + 1e-9), dmw)
-                if not math.isnan(lv) and not (0.0 <= lv < 360.0 + 1e-9):
+                if not math.isnan(lv) and not (0.0 <= lv < 360.0):
                     raise Violation("dm-range", "dm=%r" % lv)
                 rad, e = ref.dspr_radicand()
                 lv = val("dspr")
